@@ -768,6 +768,8 @@ static bool pred_observed(const proc *pr, int c)
         case PR_RES_FREE: cls = GC_RES; idx = W.nres ? a % W.nres : 0; break;
         case PR_POOL_AVAIL_GE: cls = GC_POOL; idx = W.npool ? a % W.npool : 0; break;
         case PR_BUF_LEVEL_GE: cls = GC_BUF_FRONT; idx = W.nbuf ? a % W.nbuf : 0; break;
+        case PR_OQ_LEN_GE: cls = GC_OQ_FRONT; idx = W.noq ? a % W.noq : 0; break;      /* a put signals the getters' list */
+        case PR_BUF_SPACE_GE: cls = GC_BUF_REAR; idx = W.nbuf ? a % W.nbuf : 0; break;  /* a get signals the putters' list */
         default: return false;
     }
     for (int g = 0; g < W.nguards; g++) if (W.guards[g].cls == cls && W.guards[g].idx == idx) return cond_observes[c][g];
